@@ -64,10 +64,25 @@ class AbsPDF:
         if use_tf_function:
             from tf_pwa.experimental.wrap_function import WrapFun
 
-            self.cached_fun = WrapFun(self.pdf, jit_compile=jit_compile)
+            self.cached_fun = WrapFun(
+                self.pdf, jit_compile=jit_compile, state=self._traced_state
+            )
         else:
             self.cached_fun = self.pdf
         self.extra_kwargs = kwargs
+
+    def _traced_state(self):
+        """python-level state that is frozen when the pdf is traced by tf.function"""
+        vm = self.vm
+        return (
+            tuple(sorted((k, str(v)) for k, v in vm.complex_vars.items())),
+            tuple(
+                sorted(
+                    (k, repr(np.asarray(v).tolist()))
+                    for k, v in vm.mask_vars.items()
+                )
+            ),
+        )
 
     def get_params(self, trainable_only=False):
         return self.vm.get_all_dic(trainable_only)
@@ -125,6 +140,18 @@ class BaseAmplitudeModel(AbsPDF):
 
     def init_params(self, name=""):
         self.decay_group.init_params(name)
+
+    def _traced_state(self):
+        mask_factor = []
+        for i in self.decay_group:
+            mask_factor.append(bool(getattr(i, "mask_factor", False)))
+            for j in i:
+                mask_factor.append(bool(getattr(j, "mask_factor", False)))
+        return (
+            super()._traced_state(),
+            tuple(self.decay_group.chains_idx),
+            tuple(mask_factor),
+        )
 
     def __del__(self):
         if hasattr(self, "cached_fun"):
